@@ -195,15 +195,15 @@ type Seg struct {
 
 type Case struct {
 	P       int    `json:"p"`
-	Wide    bool   `json:"wide"`           // true: OfferLong(uint64); false: Offer(uint32), items truncated to 32 bits
-	Default bool   `json:"default_ctor"`   // P == 10 only: NewHyperLogLogDefault()
-	Segs    []Seg  `json:"segs"`           // the multiset offered, in this order
-	Fair    bool   `json:"fair"`           // items are not chosen by their hash: the accuracy envelope applies
-	Shuf    uint64 `json:"shuf"`           // seed of the reordering / duplication / partition
-	DupPc   int    `json:"dup_pc"`         // percentage of items offered once more in the reordered run
-	Parts   int    `json:"parts"`          // number of counters the items are split over before merging
-	OvlPc   int    `json:"ovl_pc"`         // percentage of items given to a second part as well
-	Extra   int    `json:"extra"`          // items offered to the rebuilt counter after the round trip
+	Wide    bool   `json:"wide"`         // true: OfferLong(uint64); false: Offer(uint32), items truncated to 32 bits
+	Default bool   `json:"default_ctor"` // P == 10 only: NewHyperLogLogDefault()
+	Segs    []Seg  `json:"segs"`         // the multiset offered, in this order
+	Fair    bool   `json:"fair"`         // items are not chosen by their hash: the accuracy envelope applies
+	Shuf    uint64 `json:"shuf"`         // seed of the reordering / duplication / partition
+	DupPc   int    `json:"dup_pc"`       // percentage of items offered once more in the reordered run
+	Parts   int    `json:"parts"`        // number of counters the items are split over before merging
+	OvlPc   int    `json:"ovl_pc"`       // percentage of items given to a second part as well
+	Extra   int    `json:"extra"`        // items offered to the rebuilt counter after the round trip
 }
 
 func splitmix(x *uint64) uint64 {
@@ -529,10 +529,18 @@ func runCase(c Case) *pbt.Result {
 		// AddAll: in-place union, argument untouched
 		acc := hll.BuildHyperLogLog(append([]byte(nil), snaps[0]...))
 		for i := 1; i < k; i++ {
+			// the estimate is observed between the in-place merges: it is a function of the state only,
+			// whatever was asked or merged before
+			if ac, bc := acc.Cardinality(), hll.BuildHyperLogLog(append([]byte(nil), acc.GetBytes()...)).Cardinality(); ac != bc {
+				return pbt.Fail("before AddAll #%d: Cardinality() = %d but a counter rebuilt from the same bytes estimates %d", i, ac, bc)
+			}
 			acc.AddAll(hs[i])
 		}
 		if ab := acc.GetBytes(); !bytes.Equal(ab, full) {
 			return pbt.Fail("AddAll of the other %d parts differs from the counter of the union: %s", k-1, diffAt(ab, full))
+		}
+		if ac := acc.Cardinality(); ac != card {
+			return pbt.Fail("after AddAll of the other %d parts the state equals the union's but Cardinality() = %d, the union's counter estimates %d (stale estimate)", k-1, ac, card)
 		}
 		if res := unchanged("AddAll"); res != nil {
 			return res
@@ -710,7 +718,7 @@ func drawCase(t *rapid.T) Case {
 
 var specHLL = pbt.Register(pbt.Spec[Case]{
 	Prop: "C14", Name: "hll-model",
-	Rule: "precision 4..16, OfferLong/Offer, multisets of 0..6m items (random, sequential, strided/high-bit-only, repeated segments, items crafted to a chosen register and rank), a reordered run with 0-90% repetitions, a split into 1-5 (optionally overlapping) parts that are merged; golib vs an independent register model for Offer's result, bytes, estimate, merge laws, rebuild; non-trivial = more than 2.5m distinct items (raw-estimator range) or a merge of overlapping parts; distinct by (p, path, register state, number of distinct items)",
+	Rule:  "precision 4..16, OfferLong/Offer, multisets of 0..6m items (random, sequential, strided/high-bit-only, repeated segments, items crafted to a chosen register and rank), a reordered run with 0-90% repetitions, a split into 1-5 (optionally overlapping) parts that are merged; golib vs an independent register model for Offer's result, bytes, estimate, merge laws, rebuild; non-trivial = more than 2.5m distinct items (raw-estimator range) or a merge of overlapping parts; distinct by (p, path, register state, number of distinct items)",
 	Quick: 4000, Thorough: 150000,
 	Draw: drawCase,
 	Run:  runCase,
@@ -762,9 +770,9 @@ func TestHLLBoundaries(t *testing.T) {
 // ---- RegisterSet against an array model -------------------------------------------
 
 type ROp struct {
-	K   string `json:"k"` // "upd" UpdateIfGreater, "set" Set, "get" Get, "merge" Merge(other built from the pairs)
-	Pos int    `json:"pos,omitempty"`
-	Val int    `json:"val,omitempty"`
+	K   string   `json:"k"` // "upd" UpdateIfGreater, "set" Set, "get" Get, "merge" Merge(other built from the pairs)
+	Pos int      `json:"pos,omitempty"`
+	Val int      `json:"val,omitempty"`
 	O   [][2]int `json:"o,omitempty"` // (position, value) pairs set in the other register set
 }
 
@@ -845,7 +853,7 @@ func runRegs(c RCase) *pbt.Result {
 
 var specRegs = pbt.Register(pbt.Spec[RCase]{
 	Prop: "C14", Name: "registerset-model",
-	Rule: "register sets of 2^0..2^10 registers (power-of-two counts, as the counter creates them) driven by 1-40 UpdateIfGreater/Set/Get/Merge operations with 5-bit values 0..31 at positions biased to word borders, against a []uint8 model and its six-per-word packing after every operation; non-trivial = >= 3 operations of >= 2 kinds; distinct by final state",
+	Rule:  "register sets of 2^0..2^10 registers (power-of-two counts, as the counter creates them) driven by 1-40 UpdateIfGreater/Set/Get/Merge operations with 5-bit values 0..31 at positions biased to word borders, against a []uint8 model and its six-per-word packing after every operation; non-trivial = >= 3 operations of >= 2 kinds; distinct by final state",
 	Quick: 20000, Thorough: 200000,
 	Draw: func(t *rapid.T) RCase {
 		c := RCase{Log2: rapid.IntRange(0, 10).Draw(t, "log2")}
